@@ -373,28 +373,33 @@ def exec_applicable(spec):
 
 def execp_applicable(spec, b, out):
     """The execution model with producers (Model/ExecProd.lean, `SetupP`): every dependent source has exactly one producer,
-    wired directly (no ordering token), private to it (nothing else consumes or depends on the producer, and it is not the
-    requested output), and every registered node upstream of the source is upstream of the producer too."""
+    wired to it directly or through ordering tokens; the producer and its tokens are PRIVATE to the source (whatever depends on
+    one of them is another of them or the source; none is the requested output); and every registered node upstream of the
+    source is upstream of the producer too."""
     nodes = spec["nodes"]
-    if any(nd["kind"] == "token" or "feeds" in nd or "fed_by" in nd for nd in nodes):
+    if any("feeds" in nd or "fed_by" in nd for nd in nodes):
         return False
     prods = [nd for nd in nodes if nd["kind"] == "producer"]
     ds = [nd["id"] for nd in nodes if nd["kind"] == "dsource"]
     if not prods or sorted(nd["writes"] for nd in prods) != sorted(ds):
         return False
+    tokens = {nd["id"] for nd in nodes if nd["kind"] == "token"}
+    owned = set()
     for nd in prods:
         j, d = nd["id"], nd["writes"]
-        if j not in nodes[d]["deps"]:
+        if not nx.has_path(b.graph, j, d):
             return False
-        if any(j in other["args"] or j in other["deps"] for other in nodes if other["id"] != d):
-            return False
-        if out and j in out:
-            return False
+        own = {j} | {t for t in tokens if nx.has_path(b.graph, j, t) and nx.has_path(b.graph, t, d)}
+        for u in own:
+            if any(v != d and v not in own for v in b.graph.successors(u)):
+                return False
+            if out and u in out:
+                return False
+        owned |= own
         up_d = {q for q in nx.ancestors(b.graph, d) if q in b.stores}
-        up_j = nx.ancestors(b.graph, j)
-        if not up_d <= up_j:
+        if not up_d <= nx.ancestors(b.graph, j):
             return False
-    return True
+    return tokens <= owned
 
 
 def exec_request(b, snap, c0, stale, out, events, value, ok, cmd="exec"):
